@@ -60,6 +60,8 @@ OPERATORS = [
     ("break->continue", r"\bbreak;", "continue;"),
     ("return-early-removed", r"^\s*return;\s*$", ""),
     ("unlock-removed", r"^\s*unlock\(([a-z_]+)\);\s*$", ""),
+    ("or-assign->assign", r" \|= ", " = "),
+    ("stmt-deleted", r"^\s*(?!let |return|break|continue|unlock|log::|debug_assert|assert|asan::|msan::|#)[a-z_][A-Za-z0-9_\.\(\)\*&]*( (\|=|=|\+=|-=) [^;{}]*| ?\([^;{}]*\)|\.[a-z_]+\([^;{}]*\));\s*$", ""),
 ]
 
 SKIP_LINE = re.compile(r"^\s*(//|///|//!|#\[|use |pub use |mod |pub mod |log::|debug_assert|assert)")
@@ -127,8 +129,7 @@ def candidates(files, per_line=1):
                     if new != line:
                         out.append(dict(file=f, line=i + 1, op=name, before=line.strip(), after=new.strip(), new_line=new))
                         n += 1
-                        if n >= per_line:
-                            break
+                        break
                 if n >= per_line:
                     break
     return out
@@ -174,9 +175,16 @@ def run_battery(known):
     return killed
 
 
-def run(files, limit, out_path, start):
+def run(files, limit, out_path, start, per_line=1, skip=None):
     known = known_sigs()
-    cands = candidates(files)
+    cands = candidates(files, per_line)
+    if skip:
+        done = set()
+        for path in skip.split(","):
+            for line in open(path):
+                r = json.loads(line)
+                done.add((r["file"], r["line"], r["op"]))
+        cands = [c for c in cands if (c["file"], c["line"], c["op"]) not in done]
     print("%d candidate mutants in %d files" % (len(cands), len(files)))
     # Spread over the files instead of exhausting the first one.
     if limit and len(cands) > limit:
@@ -224,7 +232,7 @@ def main():
         sh("git -C /repo worktree prune")
         shutil.rmtree(HARNESS, ignore_errors=True)
     elif sys.argv[1] == "run":
-        files, limit, out, start = DEFAULT_FILES, 0, "/verif/out/mutation_sweep.jsonl", 0
+        files, limit, out, start, per_line, skip = DEFAULT_FILES, 0, "/verif/out/mutation_sweep.jsonl", 0, 1, None
         a = sys.argv[2:]
         while a:
             if a[0] == "--files":
@@ -235,8 +243,12 @@ def main():
                 out = a[1]
             elif a[0] == "--start":
                 start = int(a[1])
+            elif a[0] == "--per-line":
+                per_line = int(a[1])
+            elif a[0] == "--skip":
+                skip = a[1]
             a = a[2:]
-        run(files, limit, out, start)
+        run(files, limit, out, start, per_line, skip)
     return 0
 
 
